@@ -18,7 +18,7 @@ LEVEL = "exploration"
 RULE = (
     "Hypothesis lists of journal operations (create_or_load over a CompID pool with mirror "
     "pairs / equal ids / quoting characters, persist_msg with sparse, descending, repeated and "
-    "huge numbers and arbitrary payload bytes, set_seq_num, recover_messages with empty / "
+    "huge numbers and arbitrary payload bytes, set_seq_num, close + reopen (such histories run on a file), recover_messages with empty / "
     "inverted / single / open-ended ranges, recover_msg, get_all_msgs under every filter, "
     "sessions()) run on an in-memory Journaler and a dict model, full comparison after every "
     "operation. Non-trivial = history using >=2 sessions, both directions and a set_seq_num "
@@ -59,6 +59,7 @@ op = st.one_of(
     st.tuples(st.just("one"), sess, dirn, num),
     st.tuples(st.just("all"), st.lists(sess, max_size=3), st.sampled_from([None, "in", "out"]), st.booleans()),
     st.tuples(st.just("sessions")),
+    st.tuples(st.just("reopen")),
 )
 # every history starts with two mirror-image sessions so that isolation is exercised
 history = st.lists(op, min_size=1, max_size=30)
@@ -79,8 +80,36 @@ class Model:
 
 def run_history(ops, record):
     """record(sig, detail) is called for each violated clause; returns class set."""
-    j = Journaler()
+    # a history with a "reopen" runs on a file: the store must be faithful across close / reopen too
+    path = None
+    if any(o[0] == "reopen" for o in ops):
+        import os
+        import tempfile
+
+        fd, path = tempfile.mkstemp(prefix="verif_c13_", suffix=".db", dir="/dev/shm" if os.path.isdir("/dev/shm") else None)
+        os.close(fd)
+        os.unlink(path)
+    j = Journaler(path)
     m = Model()
+    try:
+        return _run_history(ops, record, j, m, path)
+    finally:
+        if path:
+            import os
+
+            for suf in ("", "-journal"):
+                try:
+                    os.unlink(path + suf)
+                except FileNotFoundError:
+                    pass
+
+
+class _Closed:
+    def __del__(self):
+        pass
+
+
+def _run_history(ops, record, j, m, path):
     table = []  # FIXSession objects (freshly loaded), index = sess
     classes = set()
     stores = 0
@@ -237,6 +266,12 @@ def run_history(ops, record):
                     return classes
             elif kind == "sessions":
                 pass
+            elif kind == "reopen":
+                j.cursor.close()
+                j.conn.close()  # no explicit commit: every completed operation must already be durable
+                j.__class__ = _Closed
+                j = Journaler(path)
+                classes.add("reopen")
         except BaseException as e:  # noqa
             fail(f"exception/{kind}/{type(e).__name__}", f"op {o!r} raised {type(e).__name__}: {e}")
             return classes
